@@ -556,7 +556,7 @@ func c07Case(ctx *core.Ctx, r *gen.Rng, m *meta.Module, root *tree.SNode, yang s
 
 // C07: query parameters return exactly the defined projection of the full read.
 func C07(ctx *core.Ctx) error {
-	ctx.Rule = "query = (schema: generated with lists, defaults, leaf-lists, config-false sub-trees, or the hand-written one with config-false leaves and nested lists) x data x target selection (root, container, list entry) x parameter string: every depth 1..8, every content value, with-defaults, field-path expressions enumerated over the schema (nested, alternatives, groups, unknown names) for fields and fc.xfields, row windows (empty, inverted, open, out of range) on every list, fc.max-node-count around the container count, invalid values, all pairs and random triples of parameters; two spellings of the query string; via Constrain or Find(path?query); chains = the parameters given in 2-3 steps (Find(piece?q1) ... Find(rest?q2) / Constrain(q3), the path to the target split over the steps at random, steps without parameters included): a small depth or a tight fc.max-node-count first and another parameter later, the same parameter in two steps, a later depth, an invalid value in some step, random steps (fc.range in at most one step of a chain, except the two-windows chains: fc.range on the same list in two steps, known finding 1); list targets = the read starts at a LIST (not an entry) that holds rows: every depth 1..4(8), each parameter alone (windows with an empty selector naming the target list itself), pairs, chains; distinct by SHA-256 of the case term; non-trivial = at least one parameter and a non-empty target"
+	ctx.Rule = "query = (schema: generated with lists, defaults, leaf-lists, config-false sub-trees, or the hand-written one with config-false leaves and nested lists) x data x target selection (root, container, list entry) x parameter string: every depth 1..8, every content value, with-defaults, field-path expressions enumerated over the schema (nested, alternatives, groups, unknown names) for fields and fc.xfields, row windows (empty, inverted, open, out of range) on every list, fc.max-node-count around the container count, invalid values, all pairs and random triples of parameters; two spellings of the query string; via Constrain or Find(path?query); chains = the parameters given in 2-3 steps (Find(piece?q1) ... Find(rest?q2) / Constrain(q3), the path to the target split over the steps at random, steps without parameters included): a small depth or a tight fc.max-node-count first and another parameter later, the same parameter in two steps, a later depth, an invalid value in some step, random steps (fc.range in at most one step of a chain, except the two-windows chains: fc.range on the same list in two steps, known finding 1); list targets = the read starts at a LIST (not an entry) that holds rows (in a copy of the data whose first rows leave their leaves with a default unset): every depth 1..4(8), each parameter alone (windows with an empty selector naming the target list itself), pairs, chains; distinct by SHA-256 of the case term; non-trivial = at least one parameter and a non-empty target"
 	ctx.ShardMax = 100000 // many small shards: the classification runs in parallel
 	c07Prelude = nil
 	defer func() {
@@ -720,17 +720,21 @@ func C07(ctx *core.Ctx) error {
 			addChain := func(label string, queries ...[]qparam) error {
 				return c07ChainCase(ctx, g.r, m, root, yang, data, g.t, tgtTerm, queries, label)
 			}
-			if err := c07Chains(ctx, g, ctx.Scale(8, 24), addChain); err != nil {
+			if err := c07Chains(ctx, g, ctx.Scale(8, 16), addChain); err != nil {
 				return err
 			}
 		}
-		if lts := c07ListTargets(root, data); len(lts) > 0 {
-			for k := 0; k < ctx.Scale(1, 3) && k < len(lts); k++ {
+		// own copy of the data: the first row of every list leaves its leaves with a default unset
+		// (the full read of a list selection fills them in)
+		ldata := c07UnsetDefaults(root, data)
+		if lts := c07ListTargets(root, ldata); len(lts) > 0 {
+			for k := 0; k < ctx.Scale(1, 2) && k < len(lts); k++ {
 				t := lts[xr.Intn(len(lts))]
 				if k == 0 {
-					// the first one: a list whose rows hold something below them when there is one
+					// the first one: a list whose rows hold something below them and leave a leaf with a
+					// default unset (the full read of a list fills it in), when there is one
 					for _, c := range lts {
-						if c.nodes() > t.nodes() {
+						if c.listScore() > t.listScore() {
 							t = c
 						}
 					}
@@ -739,7 +743,7 @@ func C07(ctx *core.Ctx) error {
 				g.paths, g.lists = schemaPaths(t.s, 3)
 				tgtTerm := c07SharedTarget(t)
 				addChain := func(label string, queries ...[]qparam) error {
-					return c07ChainCase(ctx, g.r, m, root, yang, data, g.t, tgtTerm, queries, label)
+					return c07ChainCase(ctx, g.r, m, root, yang, ldata, g.t, tgtTerm, queries, label)
 				}
 				if err := c07ListTargetCases(ctx, g, addChain); err != nil {
 					return err
